@@ -38,9 +38,11 @@ func (g *RunGen) val() string {
 		}
 		return "lit"
 	case 5:
-		return "\"" + r.Pick([]string{"q $a", "${#b}", "$x-$y", "a\\\"b", "t\\\\n"}) + "\""
+		// braces that matter: what follows ${name} decides whether Minify may drop them
+		return "\"" + r.Pick([]string{"q $a", "${#b}", "$x-$y", "a\\\"b", "t\\\\n",
+			"${a}bin", "${a}_x", "${a}1", "${a}\\\nbin", "${a}\\\n_x", "${a}\\\n/y", "${a}[0]", "${a}:b", "${a}${b}z", "${n}0", "$a\\\nbin"}) + "\""
 	case 6:
-		return r.Pick([]string{"${a#f}", "${b%o}", "${x:+set}", "${y-unset}"})
+		return r.Pick([]string{"${a#f}", "${b%o}", "${x:+set}", "${y-unset}", "${a}bin", "${a}\\\nbin", "${a}_", "x${n}9"})
 	default:
 		return r.Pick([]string{"w", "1", "2", "foo", "bar"})
 	}
